@@ -293,6 +293,33 @@ def run(chk):
                2 * len(gcases), len(set(gsrc)), exhaustive=False)
     # ---- deeper trees: every rendering gives the generator's shape and the same value -------------
     es = gen_sources(rng, 700 if quick else 12000, depth=(2, 6), use_unbound=0.02)
+    # the loosest-binding constructs (?:, ||, match) standing unparenthesised in every place that takes an expression: the
+    # spelling with the parentheses the grammar implies must compile too and evaluate to the same result
+    LOOSE = ["b1 ? 'a' : 'b'", "b0 ? 'a' : b1 ? 'p' : 'q'", "b0 || b1", "b1 && b0 || b1", "match b1 { case true: 'a', case _: 'b' }",
+             "b0 ? 1 : 2", "i1 > 0 ? 'a' : 'b'"]
+    SLOTS = ["{E: 1}", "{'k': E}", "{'j': 0, E: 1}", "{E: E}", "[E]", "[0, E]", "[E, 0]", "size([E])", "fa(E)", "fa(0, E)",
+             "{'a': 1, 'b': 2, 'p': 3, 'q': 4}[E]", "f'{E}'", "f'x{E}y{E}'", "(E)", "s1.contains(E)", "match E { case 'a': 1, case _: 2 }",
+             "match 1 { case 1: E }", "match 1 { case 2: 0, case _: E }", "false ? 0 : E", "[1].map(v, E)", "[1].filter(v, E)",
+             "[1].reduce(a, v, E, E)", "has(E)", "coalesce(E, 0)", "string(E)", "[E][0]", "{'k': E}.k", "E"]
+    qcases, qlabels = [], []
+    for le in LOOSE:
+        for sl in SLOTS:
+            a, b = sl.replace("E", le), sl.replace("E", "(" + le + ")")
+            qcases += [evalsrc_case(a), evalsrc_case(b)]
+            qlabels += [a, b]
+    qimpl, _ = tie(chk, "loosest-binding constructs in every expression position", qcases, labels=qlabels)
+    for i in range(0, len(qcases), 2):
+        ra, rb = split_result(qimpl[i])[:2], split_result(qimpl[i + 1])[:2]
+        if ra[0] in ("ERR", "CERR"):
+            ra = (ra[0], "")
+        if rb[0] in ("ERR", "CERR"):
+            rb = (rb[0], "")
+        if not is_dead(qimpl[i]) and not is_dead(qimpl[i + 1]) and ra != rb:
+            chk.violation("adding parentheses that agree with the structure, or changing white space, changed the result",
+                          dict(case=qcases[i], source=qlabels[i], other=qlabels[i + 1], impl=qimpl[i], other_result=qimpl[i + 1]))
+    chk.stream("?: / || / match unparenthesised and parenthesised in %d expression positions (map keys and values, list elements, call "
+               "arguments, indexes, f-string segments, match scrutinees and arms, conditional branches, macro bodies)" % len(SLOTS),
+               len(qcases), len(qcases) // 2, exhaustive=True)
     pcases, pwant, plabels, groups = [], [], [], []
     ecases = []
     for e in es:
